@@ -1017,9 +1017,18 @@ class state_machine_base : public FrontEnd
     };
 
 
+    // Unblocks event processing when the entry sequence is left,
+    // also when an entry behaviour throws.
+    struct entry_guard
+    {
+        bool& m_event_processing;
+        ~entry_guard() { m_event_processing = false; }
+    };
+
     template <class Event, class Fsm>
     void on_entry(Event const& event, Fsm& fsm)
     {
+        entry_guard guard{m_event_processing};
         preprocess_entry(event, fsm);
 
         state_entry_visitor<Event> visitor{self(), event};
@@ -1031,6 +1040,7 @@ class state_machine_base : public FrontEnd
     template <class TargetStates, class Event, class Fsm>
     void on_explicit_entry(Event const& event, Fsm& fsm)
     {
+        entry_guard guard{m_event_processing};
         preprocess_entry(event, fsm);
 
         using state_identities =
